@@ -76,15 +76,17 @@ Proof.
   assert (Hrest : pn_len p - clen l <> 0).
   { destruct ls as [|x ls']; [congruence|]. eapply plabels_cons_len. exact Hp. }
   unfold parent_gen.
-  Show. assert (E1 : (pn_len p =? 1) = false) by (apply N.eqb_neq; unfold clen in *; lia). rewrite E1, Hf. cbn [bind].
+  assert (Hcl : 2 <= clen l) by (unfold clen; lia).
+  assert (E1 : (pn_len p =? 1) = false) by (apply N.eqb_neq; clear - Hcl Hc Hrest; lia). rewrite E1, Hf. cbn [bind].
   assert (E2 : (pn_len p <? clen l) = false) by (apply N.ltb_ge; exact Hc). rewrite E2.
   eexists. split; [reflexivity|]. cbn [pn_pos pn_len pn_compressed]. rewrite <- He.
   split; [exact Hp|]. split; [|reflexivity].
-  intros Hcf. destruct (F Hcf) as [Hr Hs].
+  intros Hcf. cbn [pn_pos pn_len pn_compressed] in *. destruct (F Hcf) as [Hr Hs].
   rewrite wire_labels_cons in Hs.
   assert (Hhead : get m (pn_pos p) = Some (N.of_nat (length l))).
   { unfold wire_label in Hs. cbn [app] in Hs. eapply slice_head. exact Hs. }
-  destruct (Hflat _ Hhead ltac:(lia)) as [Ht _]. subst t.
+  assert (Hb63 : N.of_nat (length l) <= 63) by lia.
+  destruct (Hflat _ Hhead Hb63) as [Ht _]. subst t. subst pos'.
   split; [unfold clen in *; lia|].
   rewrite (slice_split m (pn_pos p) (pn_pos p + clen l)) in Hs by (unfold clen in *; lia).
   replace (pn_pos p + clen l + (pn_len p - clen l)) with (pn_pos p + pn_len p) by (unfold clen in *; lia).
@@ -141,13 +143,16 @@ Qed.
    wire form: it is no longer == to the flat name although name_cmp says Equal *)
 Theorem parent_clearing_flag_refuted :
   let m := [0;0;0;0;0;0;0;0;0;0;0;0; 3;99;111;109;0; 1;98;192;12; 1;97;192;17; 0;0;0;0;0] in
-  exists p q, parse_ref m 21 (mlen m) = Ok p /\ parent_gen false m p = Ok (Some q) /\
-    pn_compressed q = false /\
-    m_name_eq (NParsed m q) (NFlat (wire_abs [[98];[99;111;109]])) = Ok false /\
-    m_name_cmp (NParsed m q) (NFlat (wire_abs [[98];[99;111;109]])) = Ok Eq /\
-    (exists q', parent_gen true m p = Ok (Some q') /\
-       m_name_eq (NParsed m q') (NFlat (wire_abs [[98];[99;111;109]])) = Ok true).
+  let com := NFlat (wire_abs [[99;111;109]]) in
+  exists p p1 q, parse_ref m 21 (mlen m) = Ok p /\ parent_gen false m p = Ok (Some p1) /\
+    parent_gen false m p1 = Ok (Some q) /\ pn_compressed q = false /\
+    m_name_eq (NParsed m q) com = Ok false /\ m_name_cmp (NParsed m q) com = Ok Eq /\
+    m_name_hash (NParsed m q) = m_name_hash com /\
+    (exists q', parent_gen true m p1 = Ok (Some q') /\ m_name_eq (NParsed m q') com = Ok true).
 Proof.
-  exists (mkPName 21 11 true 25), (mkPName 19 9 false 25). vm_compute.
-  repeat split; try reflexivity. exists (mkPName 19 9 true 25). split; reflexivity.
+  exists (mkPName 21 9 true 25), (mkPName 23 7 true 25), (mkPName 19 5 false 25).
+  split; [vm_compute; reflexivity|]. split; [vm_compute; reflexivity|]. split; [vm_compute; reflexivity|].
+  split; [reflexivity|]. split; [vm_compute; reflexivity|]. split; [vm_compute; reflexivity|].
+  split; [vm_compute; reflexivity|].
+  exists (mkPName 19 5 true 25). split; vm_compute; reflexivity.
 Qed.
